@@ -14,12 +14,14 @@ func checkC01(c *Ctx) {
 		"K1 header symmetry: (*DHCPv4).ToBytes and FromBytes have the slot sequence [1,1,1,1,4,2,2,4,4,4,4,16,64,128,4] of RFC 2131 §2, slot i written from and read into the same field, hlen slot = len(ClientHWAddr), cookie = magic constant (E2 rows)",
 		"K2 name capacity: names are copied into 64/128-byte arrays bounded by N-1 (strpad(63)/strpad(127)) and the reader cuts at the first NUL",
 		"K3 option instance split (RFC 3396) in Options.Marshal: one value n is the length byte, the slice written and the slice carried on; n is len(data) clamped to 255; the loop runs while data is non-empty; zero-length values take a path writing code,0; every key other than Pad/End is written (schema row of Marshal)",
-		"K4 reassembly: the value stored for a code is append(previous value of that code, chunk consumed in this iteration)")
+		"K4 reassembly: the value stored for a code is append(previous value of that code, chunk consumed in this iteration)",
+		"K5 every key of the option map is collected by sortedKeys: an iteration bypasses the collecting append only for key == 82 / key == 255 (re-appended after the sort)")
 	r.NotDecided = append(r.NotDecided, "equality of values for all inputs (net.IP.To4, map semantics)", "combinations of options", "OptionValue constructors (C17)")
 	e2CheckLayouts(c, "C01-K1", isV4Header, 3)
 	c01Names(c)
 	c01Split(c)
 	c09Reassembly2(c, "C01-K4")
+	sortedKeysComplete(c, "C01-K5")
 }
 
 // c01Names: K2 reader side
